@@ -486,7 +486,10 @@ func runAdopt(w *World, wt *watcher, plan *chainPlan, tips []*chainmodel.Block) 
 		if cps := w.params.Checkpoints; len(cps) > 0 && wt.lastAdopt.Height <= cps[len(cps)-1].Height {
 			belowCP = true
 		}
-		if two && what != "initial-sync" && (belowCP || time.Since(wt.lastAdopt.Hdr.Timestamp) > 23*time.Hour) {
+		// (The single node stops being the sync peer once the client has
+		// cut it, e.g. for a lighter offer, and it comes back advertising
+		// fewer blocks than the client has.)
+		if (two || p.clientCuts > 0) && what != "initial-sync" && (belowCP || time.Since(wt.lastAdopt.Hdr.Timestamp) > 23*time.Hour) {
 			// An offer from a peer that is not the sync peer is looked at
 			// only by a client that counts itself current (tip less than a
 			// day old and above every hard-coded checkpoint): no
